@@ -166,6 +166,19 @@ def check(ctx):
     isd = mod.func("isdag")
     ok = (all(Pat("not getcycle(d, keys)").match(r.value) is not None for r in returns(isd)) and bool(returns(isd)))
     ctx.ob("DELEG.modes.isdag", isd, "isdag = not getcycle(d, keys)", ok)
+    # ---------------- keys_in_tasks looks where the converter/executor looks: list elements, dict VALUES, task arguments
+    kit = model.module("dask/core.py").func("keys_in_tasks") if "model" in dir() else ctx.model.module("dask/core.py").func("keys_in_tasks")
+    dct = [n for n in ast.walk(kit) if isinstance(n, ast.If) and eqv(n.test, "typ is dict")]
+    ok = len(dct) == 1 and len(dct[0].body) == 1 and eqv(dct[0].body[0], "work.extend(w.values())")
+    ctx.ob("TAB.keys-in-tasks.dict-values", kit, "a dict argument contributes its values (keys of a dict literal are data)", ok, "" if ok else "dependencies that occur only inside dict values are not seen: toposort may put a key before its dependency and cycles through a dict argument go unnoticed")
+    lst = [n for n in ast.walk(kit) if isinstance(n, ast.If) and eqv(n.test, "typ is list")]
+    ok = len(lst) == 1 and eqv(lst[0].body[0], "work.extend(w)")
+    ctx.ob("TAB.keys-in-tasks.list", kit, "a list argument contributes its elements", ok)
+    # ---------------- the dependency cache starts EMPTY for every kind of graph mapping
+    dmi = (model if "model" in dir() else ctx.model).module("dask/_task_spec.py").func("DependenciesMapping.__init__")
+    cache = find("self._cache = M_v", dmi)
+    ok = len(cache) == 1 and (eqv(cache[0][1]["M_v"], "dict.fromkeys(dsk)") or eqv(cache[0][1]["M_v"], "{}")) and not [c for c in calls(dmi, None) if (call_name(c) or "") in ("dsk.copy", "self._cache.clear")]
+    ctx.ob("OWN.dep-cache.fresh", dmi, "DependenciesMapping._cache is a new dict (dict.fromkeys(dsk): every entry None = not computed)", ok, "" if ok else "dsk.copy().clear() is empty only for a plain dict: for a ChainMap the parents' raw tasks stay in the cache and are served as dependency sets (wrong order, missed cycles)")
 
 
 VARIANTS = [
